@@ -247,7 +247,11 @@ impl BigNumber {
     }
 
     pub fn exp(&self, a: &BigNumber) -> ClResult<BigNumber> {
-        if self.bn.bits() == 0 {
+        if a.bn.is_negative() {
+            return Err(err_msg!("exponent cannot be negative"));
+        } else if a.bn.is_zero() {
+            return BigNumber::from_u32(1);
+        } else if self.bn.bits() == 0 {
             return Ok(BigNumber::default());
         } else if a.bn.is_one() {
             return Ok(self.try_clone()?);
